@@ -12,9 +12,10 @@ fail, which is reported as the broken obligation `Gen.<kernel>_eq_spec` (and the
 The theorems of the property files stay statements about `Gen.*`, i.e. about the code.
 -/
 
-/-- unfold both kernels, split every `if`, close each case by simp / omega -/
+/-- unfold both kernels; `grind` (congruence closure with case splits on the `if`s) or, failing that, split every `if` and close each
+case by simp / omega -/
 macro "same_kernel" a:ident b:ident : tactic =>
-  `(tactic| (unfold $a $b; first | rfl | ((try simp only []); (repeat' split) <;> (first | rfl | (simp_all <;> (try omega))))))
+  `(tactic| (unfold $a $b; first | rfl | grind | ((try simp only []); (repeat' split) <;> (first | rfl | grind | (simp_all <;> (try omega))))))
 
 namespace Spec
 
